@@ -253,7 +253,7 @@ func TestVerifC13Sched(t *testing.T) {
 		name := sc.name
 		st := vsched.Explore(vsched.Options{Name: name, Bound: bound, Shard: si, Shards: sn, Deadline: time.Now().Add(time.Until(deadline) / 2),
 			OnFail: func(sig string, detail interface{}, choices []int, trace []int) {
-				L.Violation(name+"/"+sig, map[string]interface{}{"schedule": choices, "detail": detail})
+				L.Violation(name+"/"+sig, map[string]interface{}{"scenario": name, "schedule": choices, "detail": detail})
 			}}, body(sc.n))
 		L.AddCases(st.Executions)
 		L.AddStates(st.Points + st.Executions)
